@@ -282,6 +282,31 @@ def shard_lengths(arg):
                                  dict(rec=rec, qi=qi, cfg="plain", digest=dg,
                                       dec="strings", sig=list(shape)),
                                  "BadSignatureError", got)
+    # a VALID signature's bytes split at every wrong position: the pair has
+    # the right total length but wrong parts
+    for dg in (b"\x01", b"\x99"):
+        e = env.e_of(dg)
+        rs = None
+        for k in range(1, env.n):
+            rs = env.ref_sign(e, qi, k)
+            if rs is not None:
+                break
+        if rs is None:
+            continue
+        x = rs[0].to_bytes(l, "big") + rs[1].to_bytes(l, "big")
+        for i in range(0, 2 * l + 1):
+            pair = [x[:i], x[i:]]
+            sh.n += 1
+            sh.nt += 1
+            bad = toy_case(rec, qi, "plain", dg, "strings", pair)
+            if bad:
+                sh.hist["fail:split"] += 1
+                sh.violation("toy", bad[0],
+                             dict(rec=rec, qi=qi, cfg="plain", digest=dg,
+                                  dec="strings", sig=pair), bad[1], bad[2])
+            else:
+                sh.hist["strings-split-%s" % ("valid" if i == l else
+                                              "wrong")] += 1
     # BadDigestError only for over-long digest with truncation off
     for dg in (b"\x01" * (l + 1), b"\xff" * (l + 3)):
         sh.n += 1
@@ -303,7 +328,9 @@ REAL_KINDS = ["valid", "valid-low-high-s", "r0", "s0", "rn", "sn", "rn1",
               "r-max", "s-max", "R-infinity", "r+n", "wrong-key",
               "wrong-digest", "wrong-curve-key", "truncated", "padded",
               "s+1", "r+1", "der-valid", "der-trailing", "der-padded-int",
-              "der-R-infinity", "strings-valid", "strings-short"]
+              "der-R-infinity", "strings-valid", "strings-short",
+              "strings-split-early", "strings-split-late",
+              "strings-all-in-one"]
 
 
 def real_case(name, kind, d, k, digest):
@@ -434,6 +461,15 @@ def real_case(name, kind, d, k, digest):
     elif kind == "strings-short":
         x = raw(r, s)
         data, dec = [x[:l], x[l + 1:]], util.sigdecode_strings
+    elif kind == "strings-split-early":
+        x = raw(r, s)
+        data, dec = [x[:l - 1], x[l - 1:]], util.sigdecode_strings
+    elif kind == "strings-split-late":
+        x = raw(r, s)
+        data, dec = [x[:l + 1], x[l + 1:]], util.sigdecode_strings
+    elif kind == "strings-all-in-one":
+        x = raw(r, s)
+        data, dec = [x, b""], util.sigdecode_strings
     else:
         raise ValueError(kind)
     if data is None:
